@@ -459,6 +459,22 @@ def _apply_oracles(obs, case, spec, flat, cfg, task, before_cfg, before_task, mo
             if len(snap) != len(gen.agents):
                 _v(obs, "C15", {"kind": "history-length"}, f"generation {k}: snapshot {len(snap)} vs {len(gen.agents)}")
                 break
+            # the generation read through Population's own accessors (len / iteration / indexing) is the same generation
+            try:
+                via_iter = [(a.position, a.cost) for a in gen]
+                ok_acc = (len(gen) == len(gen.agents) and len(via_iter) == len(gen.agents)
+                          and all(pos_eq(p1, a.position) and feq(c1, a.cost) for (p1, c1), a in zip(via_iter, gen.agents))
+                          and pos_eq(gen[0].position, gen.agents[0].position) and feq(gen[0].cost, gen.agents[0].cost)
+                          and pos_eq(gen[len(gen.agents) - 1].position, gen.agents[-1].position)
+                          and pos_eq(gen[-1].position, gen.agents[-1].position) and feq(gen[-1].cost, gen.agents[-1].cost))
+            except Exception as e:
+                ok_acc = False
+                via_iter = repr(e)
+            if not ok_acc:
+                _v(obs, "C15", {"kind": "accessor-disagrees"},
+                   f"generation {k}: len()/iteration/indexing of the recorded Population disagree with its agents "
+                   f"(len {len(gen.agents)}; via iteration: {str(via_iter)[:160]})")
+                break
             for j, ((p, c, f), a) in enumerate(zip(snap, gen.agents)):
                 st["snap_agents"] += 1
                 if not (pos_eq(p, a.position) and feq(sign * c, a.cost) and feq(f, a.fitness)):
